@@ -6,6 +6,7 @@ After any history of fit / refine / recluster / set_merge / setters / delete_int
 particular the code's own), the reported clusters partition the labels `0 .. numFitted-1`.
 -/
 import BBProofs.Ops
+import BBProofs.Labels
 import BBProofs.RefPolicy
 
 namespace BB
@@ -89,5 +90,140 @@ example : ∀ op ∈ ([.fit [[true, true, false], [true, false, false], [true], 
   intro op hop
   simp only [List.mem_cons, List.not_mem_nil, or_false] at hop
   rcases hop with rfl | rfl | rfl | rfl | rfl | rfl | rfl <;> simp [Op.WF]
+
+/-! ## C01 with explicit labels
+
+`fit(X, reinsert_indices=ls)` inserts row `i` under the label `ls[i]`: an arbitrary number,
+possibly a duplicate, possibly colliding with an implicit label.  The reported clusters then
+hold exactly the labels that were inserted since the last reset — `labelsOf`, accumulated
+through the model's own step function (`BBProofs/Labels.lean`): a `fit` contributes the labels
+of the rows inserted before it stopped (`ls.zip rows` truncates to the shorter list), `reset`
+forgets everything, every other operation contributes nothing.  `Op.WFL F` is `Op.WF F`
+without the demand `labels = none`: NO side condition on the labels is needed. -/
+
+/-- `Op.WF` = `Op.WFL` + "labels implicit" -/
+theorem C01_wf_iff_wfl (F : Nat) (op : Op) :
+    op.WF F ↔ op.WFL F ∧ ∀ rows labels, op = .fit rows labels → labels = none := by
+  cases op <;> simp [Op.WF, Op.WFL, and_comm]
+
+/-- the invariant with labels holds along every history, for every valid family of policies -/
+theorem C01_labels_invariant (pol : Cfg → Policy) (hpol : ∀ cfg, (pol cfg).Valid) (cfg : Cfg) (hbf : 2 ≤ cfg.bf)
+    (F : Nat) (ops : List Op) (hwf : ∀ op ∈ ops, op.WFL F) :
+    LInv F (labelsOf pol (init cfg) ops : List Nat) (runWith pol (init cfg) ops) :=
+  run_linv pol hpol F ops [] _ (init_linv F cfg hbf) hwf
+
+/-- **C01 with labels (policy-generic)**: the reported clusters, sorted or in leaf order, hold
+exactly the labels inserted since the last reset, with their multiplicities — none lost, none
+invented, none duplicated.  No condition on the labels. -/
+theorem C01_labels_generic (pol : Cfg → Policy) (hpol : ∀ cfg, (pol cfg).Valid) (cfg : Cfg)
+    (hbf : 2 ≤ cfg.bf) (F : Nat) (ops : List Op) (hwf : ∀ op ∈ ops, op.WFL F) (sort : Bool) :
+    ((((runWith pol (init cfg) ops).clusters sort).flatten : List Nat) : Multiset Nat)
+      = (labelsOf pol (init cfg) ops : List Nat) :=
+  clusters_labels F _ _ (C01_labels_invariant pol hpol cfg hbf F ops hwf) sort
+
+/-- **C01 with labels** for the decisions the code takes (`refPolicy`), any exp table -/
+theorem C01_labels (X : ExpTab) (cfg : Cfg) (hbf : 2 ≤ cfg.bf) (F : Nat) (ops : List Op)
+    (hwf : ∀ op ∈ ops, op.WFL F) (sort : Bool) :
+    ((((run X (init cfg) ops).clusters sort).flatten : List Nat) : Multiset Nat)
+      = (labelsOf (refPolicy X) (init cfg) ops : List Nat) :=
+  C01_labels_generic (refPolicy X) (refPolicy_valid X) cfg hbf F ops hwf sort
+
+/-- the same as a permutation of lists -/
+theorem C01_labels_perm (X : ExpTab) (cfg : Cfg) (hbf : 2 ≤ cfg.bf) (F : Nat) (ops : List Op)
+    (hwf : ∀ op ∈ ops, op.WFL F) (sort : Bool) :
+    ((run X (init cfg) ops).clusters sort).flatten.Perm (labelsOf (refPolicy X) (init cfg) ops) :=
+  Multiset.coe_eq_coe.mp (C01_labels X cfg hbf F ops hwf sort)
+
+/-- if the inserted labels are distinct, no label occurs twice in the report, neither inside
+a cluster nor in two clusters -/
+theorem C01_labels_nodup (X : ExpTab) (cfg : Cfg) (hbf : 2 ≤ cfg.bf) (F : Nat) (ops : List Op)
+    (hwf : ∀ op ∈ ops, op.WFL F) (sort : Bool) (hnd : (labelsOf (refPolicy X) (init cfg) ops).Nodup) :
+    ((run X (init cfg) ops).clusters sort).flatten.Nodup :=
+  (C01_labels_perm X cfg hbf F ops hwf sort).nodup_iff.mpr hnd
+
+/-- a label occurs in the report exactly as often as it was inserted -/
+theorem C01_labels_count_eq (X : ExpTab) (cfg : Cfg) (hbf : 2 ≤ cfg.bf) (F : Nat) (ops : List Op)
+    (hwf : ∀ op ∈ ops, op.WFL F) (sort : Bool) (i : Nat) :
+    ((run X (init cfg) ops).clusters sort).flatten.count i = (labelsOf (refPolicy X) (init cfg) ops).count i :=
+  (C01_labels_perm X cfg hbf F ops hwf sort).count_eq i
+
+/-- a label is in some cluster iff it was inserted since the last reset -/
+theorem C01_labels_mem (X : ExpTab) (cfg : Cfg) (hbf : 2 ≤ cfg.bf) (F : Nat) (ops : List Op)
+    (hwf : ∀ op ∈ ops, op.WFL F) (sort : Bool) (i : Nat) :
+    (∃ c ∈ (run X (init cfg) ops).clusters sort, i ∈ c) ↔ i ∈ labelsOf (refPolicy X) (init cfg) ops := by
+  have := (C01_labels_perm X cfg hbf F ops hwf sort).mem_iff (a := i)
+  simpa [List.mem_flatten] using this
+
+/-- `numFitted` is the number of rows inserted since the last reset, whatever their labels
+(also after `refine` and `recluster`, which recompute it), and it is the number of labels reported -/
+theorem C01_labels_count (X : ExpTab) (cfg : Cfg) (hbf : 2 ≤ cfg.bf) (F : Nat) (ops : List Op)
+    (hwf : ∀ op ∈ ops, op.WFL F) (sort : Bool) :
+    (run X (init cfg) ops).numFitted = (labelsOf (refPolicy X) (init cfg) ops).length ∧
+    ((run X (init cfg) ops).clusters sort).flatten.length = (run X (init cfg) ops).numFitted := by
+  have h1 : (run X (init cfg) ops).numFitted = (labelsOf (refPolicy X) (init cfg) ops).length := by
+    simpa [run] using (C01_labels_invariant (refPolicy X) (refPolicy_valid X) cfg hbf F ops hwf).cnt
+  exact ⟨h1, by rw [h1]; exact (C01_labels_perm X cfg hbf F ops hwf sort).length_eq⟩
+
+/-- with implicit labels everywhere (`Op.WF`) the inserted labels are `0 .. numFitted-1`, in
+this order: `C01_partition` is the special case `labels = none` of `C01_labels` -/
+theorem C01_labels_implicit (pol : Cfg → Policy) (hpol : ∀ cfg, (pol cfg).Valid) (cfg : Cfg)
+    (hbf : 2 ≤ cfg.bf) (F : Nat) (ops : List Op) (hwf : ∀ op ∈ ops, op.WF F) :
+    labelsOf pol (init cfg) ops = List.range (runWith pol (init cfg) ops).numFitted :=
+  labelsAcc_range pol hpol F ops (init cfg) (init_linv F cfg hbf)
+    (fun op h => ((C01_wf_iff_wfl F op).mp (hwf op h)).1)
+    (fun rows labels h => ((C01_wf_iff_wfl F _).mp (hwf _ h)).2 rows labels rfl)
+
+/-- `C01_partition_generic` again, from `C01_labels_generic` and `C01_labels_implicit` -/
+example (pol : Cfg → Policy) (hpol : ∀ cfg, (pol cfg).Valid) (cfg : Cfg)
+    (hbf : 2 ≤ cfg.bf) (F : Nat) (ops : List Op) (hwf : ∀ op ∈ ops, op.WF F) (sort : Bool) :
+    ((runWith pol (init cfg) ops).clusters sort).flatten.Perm
+      (List.range (runWith pol (init cfg) ops).numFitted) := by
+  rw [← C01_labels_implicit pol hpol cfg hbf F ops hwf]
+  exact Multiset.coe_eq_coe.mp (C01_labels_generic pol hpol cfg hbf F ops
+    (fun op h => ((C01_wf_iff_wfl F op).mp (hwf op h)).1) sort)
+
+/-- what a `fit` with explicit labels adds when all its rows are well-formed and the internal
+nodes are still there: the labels zipped with the rows (all of `ls` when there are at least as
+many rows as labels) -/
+theorem C01_labels_fit (pol : Cfg → Policy) (hpol : ∀ cfg, (pol cfg).Valid) (cfg : Cfg)
+    (hbf : 2 ≤ cfg.bf) (F : Nat) (ops : List Op) (hwf : ∀ op ∈ ops, op.WFL F)
+    (rows : List Row) (ls : List Nat) (hrows : ∀ r ∈ rows, r.length = F)
+    (hlo : (runWith pol (init cfg) ops).st.isLeavesOnly = false) :
+    labelsOf pol (init cfg) (ops ++ [.fit rows (some ls)])
+      = labelsOf pol (init cfg) ops ++ ls.take rows.length := by
+  rw [labelsOf_snoc]
+  simp only [stepLabels]
+  rw [opLabels_fit_all pol hpol F _ _ (C01_labels_invariant pol hpol cfg hbf F ops hwf) rows ls hrows hlo]
+
+/-- `reset` forgets the labels: a history is the history since the last reset -/
+theorem C01_labels_reset (pol : Cfg → Policy) (cfg : Cfg) (ops ops' : List Op) :
+    labelsOf pol (init cfg) (ops ++ .reset :: ops')
+      = labelsOf pol (init (runWith pol (init cfg) ops).cfg) ops' :=
+  labelsOf_reset pol _ ops ops'
+
+/-! Explicit labels with a duplicate: three rows under the labels `5, 5, 9` (the two equal
+rows merge), one more row under the implicit label `numFitted = 3`, then a fit whose second
+row is malformed (only the label `7` goes in, `8` does not) and one with more rows than labels
+(`zip` truncates: one row, label `3` again); the root has split (`bf = 2`), so
+`delete_internal_nodes` is effective.  The report holds exactly these labels. -/
+example :
+    let X : ExpTab := { E := fun _ => 0, off := 0 }
+    let cfg : Cfg := { thr := 13/20, bf := 2, merge := { crit := .diameter } }
+    let ops : List Op :=
+      [.fit [[true, true, false], [true, true, false], [false, false, true]] (some [5, 5, 9]),
+       .fit [[false, true, true]] none,
+       .fit [[true, true, false], [true], [true, false, false]] (some [7, 8, 8]),
+       .fit [[false, false, true], [false, true, true]] (some [3]),
+       .delInternal]
+    (∀ op ∈ ops, op.WFL 3) ∧
+    labelsOf (refPolicy X) (init cfg) ops = [5, 5, 9, 3, 7, 3] ∧
+    (run X (init cfg) ops).clusters false = [[5, 5, 7], [9, 3], [3]] ∧
+    (run X (init cfg) ops).numFitted = 6 := by
+  intro X cfg ops
+  refine ⟨?_, ?_, ?_, ?_⟩
+  · intro op hop
+    simp only [ops, List.mem_cons, List.not_mem_nil, or_false] at hop
+    rcases hop with rfl | rfl | rfl | rfl | rfl <;> simp [Op.WFL]
+  all_goals decide +kernel
 
 end BB
